@@ -6,7 +6,8 @@ Logger.log's flush and cycle timers, the runner's START/RUN/STOP (incl. the STOP
 reuse) and ocfn, over a disk of per-path durable contents + the Python-level buffer of the open handle, with a
 crash (fuel) at every primitive file operation.
   theorems       : coq/C23/Props.v  (all configurations, histories, crash points)
-  correspondence : the real Logger with one streak Log (record ids 0,1,2,... as the stream) in a temp dir
+  correspondence : the real Logger with one streak Log or several Logs of different rules (each log's record
+                   ids 0,1,2,... as its stream; coq: run / mrun) in a temp dir
                    under ctx.work; retained files compared with the model's disk after the run (vm_compute
                    in Coq); crash = os._exit in a child process before the k-th op (every k, thorough tier; a
                    sample in the quick tier) -- survivors must be the model's disk with main extended by a
@@ -43,20 +44,26 @@ def c_cfg(case, hsz):
         cnat(case["keep"]), cz(case["cycleP"]), cz(case["fsize"]), cz(case["flushP"]), cbool(case["reuse"]), cz(hsz))
 
 
-def c_ops(ops, sizes):
+def c_ops(ops, sizes, multi):
+    """sizes: per control op: per log: [size...]"""
     out, k = [], 0
     for op in ops:
         if op[0] == "tick":
-            out.append("(Tick %s)" % cz(op[1]))
+            out.append("(%sTick %s)" % ("M" if multi else "", cz(op[1])))
         else:
-            out.append("(%s %s)" % (op[0].capitalize(), clist([cz(z) for z in sizes[k]], "Z")))
+            per = [clist([cz(z) for z in szs], "Z") for szs in sizes[k]]
+            arg = clist(per, "(list Z)") if multi else per[0]
+            out.append("(%s%s %s)" % ("M" if multi else "", op[0].capitalize(), arg))
             k += 1
-    return clist(out, "op")
+    return clist(out, "mop" if multi else "op")
 
 
 def c_model(case, sizes, hsz, upto=None):
-    """state after all processes; the last one only up to op `upto` (crash before that op)"""
+    """state after all processes; the last one only up to op `upto` (crash before that op).
+    one log: the single-log model (run); several logs: the multi-log model (mrun)"""
     cfg = c_cfg(case, hsz)
+    nl = len(harness.rules_of(case))
+    multi = nl > 1
     expr = None
     procs = case["procs"]
     for i, ops in enumerate(procs):
@@ -64,15 +71,24 @@ def c_model(case, sizes, hsz, upto=None):
         if i == len(procs) - 1 and upto is not None:
             nctl = sum(1 for o in ops[:upto] if o[0] != "tick")
             ops, szs = ops[:upto], szs[:nctl]
-        o = c_ops(ops, szs)
-        if expr is None:
+        o = c_ops(ops, szs, multi)
+        if multi:
+            if expr is None:
+                expr = "(mrun %s %s 0 None %s)" % (cfg, cnat(nl), o)
+            else:
+                expr = "(let p := %s in mrunfrom %s (mnext %s p) %s)" % (expr, cfg, cfg, o)
+        elif expr is None:
             expr = "(run %s 0 None %s)" % (cfg, o)
         else:
             expr = "(let p := %s in runfrom %s (init %s (now p) (files p) (next p) (dropped p) None) %s)" % (
                 expr, cfg, cfg, o)
-    if upto is None:
-        expr = "(log_close %s)" % expr      # the harness closes the logger at the end of a clean run
-    return expr
+    if upto is None:       # the harness closes the logger at the end of a clean run
+        expr = "(mphase (fun _ => log_close) %s)" % expr if multi else "(log_close %s)" % expr
+    return "(lgs %s)" % expr if multi else "[%s]" % expr
+
+
+def c_allfiles(allfiles):
+    return clist([c_files(f) for f in allfiles], "(list (option content))")
 
 
 HEADER = """From Coq Require Import List ZArith Bool.
@@ -96,13 +112,30 @@ Definition adm (s : st) (impl : list (option content)) : bool :=
   end.
 Definition clean (s : st) (impl : list (option content)) : bool :=
   l_eqb oc_eqb (files s) impl && match hbuf s with None => true | Some _ => false end && negb (fault s).
+Fixpoint all2 {A B} (f : A -> B -> bool) (a : list A) (b : list B) : bool :=
+  match a, b with [], [] => true | x :: a', y :: b' => f x y && all2 f a' b' | _, _ => false end.
+Definition madm (ss : list st) (impl : list (list (option content))) : bool := all2 adm ss impl.
+Definition mclean (ss : list st) (impl : list (list (option content))) : bool := all2 clean ss impl.
 """
 
 
 # ---------------------------------------------------------------- the property, executable
-def spec_check(case, res, crashed, flushed_before=None):
-    """the statement on the surviving files alone.  returns None | why"""
-    files = res["files"]
+def spec_check(case, res, crashed):
+    """the statement on the surviving files alone, for every log of the logger.  returns None | why"""
+    rules = harness.rules_of(case)
+    for j, rule in enumerate(rules):
+        why = spec_log(case, res["files"][j], crashed,
+                       None if res["nwritten"] is None else res["nwritten"][j],
+                       res["spy"]["flushed"][j], res["spy"]["rot_at"][j])
+        if why:
+            return "log %d (rule %s): %s" % (j, rule, why)
+    for j, size, before, renamed in res["spy"]["cycles"]:
+        if renamed and size and before is not None and before < size:
+            return "rotated at size %d < threshold %d" % (before, size)
+    return None
+
+
+def spec_log(case, files, crashed, n, flushed_before, rot):
     ids = []
     for f in files:
         if f is None:
@@ -113,17 +146,16 @@ def spec_check(case, res, crashed, flushed_before=None):
                 return "a retained file does not start with the header: %r" % (body[:2],)
             if any(i == "H" for i in body[1:]):
                 return "second header inside a file"
-        for j, it in enumerate(body):
-            if it != "H" and it[0] == "P" and not (crashed and f is files[-1] and j == len(body) - 1):
+        for k, it in enumerate(body):
+            if it != "H" and it[0] == "P" and not (crashed and f is files[-1] and k == len(body) - 1):
                 return "garbled line %r" % (it,)
         ids += [it[1] for it in body if it != "H" and it[0] == "R"]
-    if ids != list(range(ids[0], ids[0] + len(ids))) if ids else False:
+    if ids and ids != list(range(ids[0], ids[0] + len(ids))):
         return "retained records are not a contiguous in-order stretch of the stream: %r" % ids
-    n = res["nwritten"]
+    kp = case["keep"]
     if not crashed:
         # exactly the records since the (keep+1)-th most recent rotation are retained, up to the last one
-        rot = res["spy"]["rot_at"]
-        a = rot[-(case["keep"] + 1)] if len(rot) > case["keep"] else 0
+        a = rot[-(kp + 1)] if len(rot) > kp else 0
         if ids != list(range(a, n)):
             return "retained ids %r..%r, expected %d..%d (all records since the rotation that many files ago)" % (
                 ids[:1], ids[-1:], a, n - 1)
@@ -135,21 +167,16 @@ def spec_check(case, res, crashed, flushed_before=None):
         # rotations seen by the dying process (main renames of ITS rotations only): records may be missing
         # only because they were rotated out beyond keep (a rotation in progress may already have overwritten
         # the oldest copy)
-        rot, kp = res["spy"]["rot_at"], case["keep"]
         a_max = (rot[-kp] if len(rot) >= kp else 0) if kp else 0
         if len(case["procs"]) == 1:
             if ids and ids[0] > a_max:
                 return "records before %d are gone although not rotated out (rotations at %r)" % (ids[0], rot)
             if flushed_before and flushed_before - 1 >= a_max and (not ids or ids[-1] < flushed_before - 1):
-                return "record %d was written before the most recent flush but is not in the files (ids end %r)" % (
-                    flushed_before - 1, ids[-3:])
+                return ("record %d was written before this log's most recent completed flush but is not in its "
+                        "files (ids end %r)" % (flushed_before - 1, ids[-3:]))
         elif ids and flushed_before and ids[-1] < flushed_before - 1:
-            return "record %d was written before the most recent flush but is not in the files (ids end %r)" % (
-                flushed_before - 1, ids[-3:])
-    for size, before, renamed in res["spy"]["cycles"]:
-        if renamed and size and before is not None and before < size:
-            return "rotated at size %d < threshold %d" % (before, size)
-    # the newest file holds every record since the last rotation
+            return ("record %d was written before this log's most recent completed flush but is not in its "
+                    "files (ids end %r)" % (flushed_before - 1, ids[-3:]))
     return None
 
 
@@ -189,15 +216,50 @@ def gen_case(rng, size=30):
     return case
 
 
+MULTI = [["once", "always"], ["always", "once"], ["once", "update", "always"], ["change", "always", "once"],
+         ["update", "streak"], ["once", "streak", "change"], ["always", "update", "change", "once"]]
+
+
+def gen_multi(rng, size=24, sparse=True):
+    """several logs of different rules on one logger; the sparse logs (once/update/change) write at stamp 0
+    and rarely afterwards while always/streak logs keep the flush timer advancing; small flushPeriod"""
+    rules = rng.choice(MULTI)
+    case = gen_case(rng, size)
+    case["logs"] = rules
+    case["flushP"] = rng.choice([8, 8, 8, 12])
+    if rng.random() < 0.5:
+        case["keep"] = 0          # no rotation: only the flush timer (and close) ever flushes
+    for ops in case["procs"]:
+        for op in ops:
+            if op[0] != "tick":
+                op.append([rng.random() < (0.12 if sparse else 0.5) for _ in rules])
+    return case
+
+
+def long_multi(rng):
+    """the shape of the seeded demo: START at stamp 0, then many ticks with a RUN each"""
+    rules = rng.choice(MULTI)
+    ops = [["start", 1, [True] * len(rules)]]
+    for _ in range(rng.randint(10, 26)):
+        ops.append(["tick", rng.choice([1, 2])])
+        ops.append(["run", rng.choice([0, 1, 2]), [rng.random() < 0.08 for _ in rules]])
+    return {"keep": rng.choice([0, 0, 2]), "cycleP": rng.choice([16, 32]), "fsize": 0, "flushP": 8,
+            "reuse": rng.random() < 0.5, "logs": rules, "procs": [ops]}
+
+
 def run(ctx):
     ctx.rule = ("configurations (keep 0-3, cyclePeriod, fileSize threshold, flushPeriod, reuse) x histories of ticks "
-                "and logger controls with 0-4 records per run, 1-3 successive Logger processes on the same "
-                "directory when reuse; retained files after the run compared with the model's disk; crash cases: "
-                "child process killed (os._exit) before op k, survivors compared with the model's admissible set; "
-                "non-trivial = at least one rotation happened or a crash with unflushed records")
+                "and logger controls; one streak log with 0-4 records per run, or 2-4 logs of different rules "
+                "(once/update/change writing at stamp 0 and rarely afterwards, always/streak every run) on one "
+                "logger; 1-3 successive Logger processes on the same directory when reuse; every log's retained "
+                "files after the run compared with the model's disk; crash cases: child process killed (os._exit) "
+                "before op k (every k for the multi-log cases), every log's survivors compared with the model's "
+                "admissible set and with the statement (records written to a log before its most recent completed "
+                "Log.flush/Logger.flush are in its files); non-trivial = a rotation happened or a crash")
     ctx.assumptions = [
         "process death only (os._exit): what was handed to the OS by flush()/close() survives; no power loss",
-        "one streak Log per Logger, record ids 0,1,2,... are the stream; store.stamp = tick/8 s",
+        "every log's records carry its own ids 0,1,2,...; which records a rule writes is planned by the harness "
+        "(C22 covers the rules) and verified by parsing the files; store.stamp = tick/8 s",
         "no OSError from the file system other than the missing-source rename modelled as `fault`",
     ]
     ctx.coq_build("C23/Props.v")
@@ -209,33 +271,53 @@ def run(ctx):
     base = [["start", 1]] + sum([[["tick", 1], ["run", 1]] for _ in range(16)], []) + [["tick", 1], ["stop", 1]]
     for reuse in (False, True):
         cases.append({"keep": 2, "cycleP": 4, "fsize": 10, "flushP": 24, "reuse": reuse, "procs": [base]})
-    for _ in range(ctx.n(500, 6000)):
+    for _ in range(ctx.n(350, 4000)):
         cases.append(gen_case(ctx.rng))
+    for _ in range(ctx.n(120, 1500)):
+        cases.append(gen_multi(ctx.rng, sparse=ctx.rng.random() < 0.6))
     for case in cases:
         res = harness.run_case(case, work)
-        nrot = sum(1 for c in res["spy"]["cycles"] if c[2])
-        ctx.case({"case": case, "files": res["files"]}, nontrivial=nrot > 0, kind="clean:keep=%d" % case["keep"])
-        metas.append((case, res, None, None))
+        nrot = sum(1 for c in res["spy"]["cycles"] if c[3])
+        ctx.case({"case": case, "files": res["files"]}, nontrivial=nrot > 0,
+                 kind="clean:logs=%d:keep=%d" % (len(harness.rules_of(case)), case["keep"]))
+        metas.append((case, res, None))
         try:
-            pairs.append((c_model(case, res["sizes"], res["hsz"]) , c_files(res["files"]), "clean"))
+            pairs.append((c_model(case, res["sizes"], res["hsz"]), c_allfiles(res["files"]), "clean"))
         except ValueError as ex:
             pairs.append(None)
             ctx.tie_broken("correspondence", "C23 garbled file", "%s %s" % (json.dumps(case), ex))
 
     # 2. crashes at op granularity, in child processes
-    ncr = 0
     crash_cases = []
-    for _ in range(ctx.n(6, 40)):
+    for _ in range(ctx.n(4, 30)):
         case = gen_case(ctx.rng, size=14)
         last = case["procs"][-1]
         ks = list(range(1, len(last) + 1))
         if not ctx.thorough:
-            ks = ctx.rng.sample(ks, min(4, len(ks)))
+            ks = ctx.rng.sample(ks, min(3, len(ks)))
+        for k in ks:
+            crash_cases.append(dict(case, crash=k))
+    # 2b. several logs per logger, sparse writers, small flush period: killed at EVERY tick (demo shape), and
+    #     random multi-log histories killed at sampled (quick) / all (thorough) ops
+    for _ in range(ctx.n(1, 6)):
+        case = long_multi(ctx.rng)
+        last = case["procs"][-1]
+        ks = [k for k in range(1, len(last) + 1) if k == len(last) or last[k][0] == "tick"]
+        if not ctx.thorough:
+            ks = ks[-1:] + ctx.rng.sample(ks[:-1], min(7, len(ks) - 1))
+        for k in ks:
+            crash_cases.append(dict(case, crash=k))
+    for _ in range(ctx.n(3, 25)):
+        case = gen_multi(ctx.rng, size=14)
+        last = case["procs"][-1]
+        ks = list(range(1, len(last) + 1))
+        if not ctx.thorough:
+            ks = ctx.rng.sample(ks, min(3, len(ks)))
         for k in ks:
             crash_cases.append(dict(case, crash=k))
     # 3. crashes inside the rename chain / with spilling buffers: property statement only
     for _ in range(ctx.n(4, 40)):
-        case = gen_case(ctx.rng, size=20)
+        case = gen_case(ctx.rng, size=20) if ctx.rng.random() < 0.6 else gen_multi(ctx.rng, size=20)
         case["keep"] = max(case["keep"], 2)
         case["fsize"] = 0
         case["cycleP"] = 2
@@ -247,54 +329,64 @@ def run(ctx):
         last = case["procs"][-1]
         crash_cases.append(dict(case, crash=ctx.rng.randint(2, len(last))))
 
-    for i, case in enumerate(crash_cases):
+    from concurrent.futures import ThreadPoolExecutor
+    from vlib import sh, PY, impl_env
+    script = os.path.join(os.path.dirname(os.path.abspath(__file__)), "harness.py")
+
+    def child(i):
         wd = os.path.join(work, "cr%d" % i)
         os.makedirs(wd, exist_ok=True)
-        script = os.path.join(os.path.dirname(os.path.abspath(__file__)), "harness.py")
-        from vlib import sh, PY, impl_env
-        rc, out = sh([PY, script], timeout=120, env=impl_env(ctx.repo), cwd=wd, input=json.dumps(case))
-        prefix = os.path.join(wd, "lg")
-        files = harness.read_files(case, prefix)
+        return sh([PY, script], timeout=120, env=impl_env(ctx.repo), cwd=wd, input=json.dumps(crash_cases[i]))
+
+    with ThreadPoolExecutor(max_workers=8) as ex:
+        outs = list(ex.map(child, range(len(crash_cases))))
+
+    for i, case in enumerate(crash_cases):
+        wd = os.path.join(work, "cr%d" % i)
+        rc, out = outs[i]
+        nl = len(harness.rules_of(case))
+        files = harness.read_files(case, os.path.join(wd, "lg"))
         side = os.path.join(wd, "side.txt")
-        flushed, rot = 0, []
+        flushed, rot = [0] * nl, [[] for _ in range(nl)]
         if os.path.exists(side):
             for ln in open(side).read().splitlines():
-                k, v = ln.split()
-                if k == "F":
-                    flushed = int(v)
-                else:
-                    rot.append(int(v))
-        sizes = harness.predicted_sizes(case)
-        res = {"files": files, "sizes": sizes, "hsz": len(harness.HDR), "nwritten": None,
-               "spy": {"fsync": [], "cycles": [], "rot_at": rot}, "survived": "survived" in out, "flushed": flushed}
+                parts = ln.split()
+                if len(parts) != 3:
+                    continue
+                if parts[0] == "L":
+                    flushed[int(parts[1])] = int(parts[2])
+                elif parts[0] == "R":
+                    rot[int(parts[1])].append(int(parts[2]))
+        sizes = harness.sizes_of(harness.plan(case))
+        survived = "survived" in out
+        res = {"files": files, "sizes": sizes, "hsz": harness.HSZ, "nwritten": None,
+               "spy": {"flushed": flushed, "cycles": [], "rot_at": rot}, "survived": survived}
         spill = case.get("big") or case.get("crash_rename") is not None
-        nbuf = sum(len(z) for z in sizes[-1]) if sizes else 0
         ctx.case({"case": case, "files": files}, nontrivial=True,
-                 kind="crash:%s" % ("rename" if case.get("crash_rename") else "big" if case.get("big") else "op"))
-        metas.append((case, res, True, flushed))
-        if spill or "survived" in out:
+                 kind="crash:%s:logs=%d" % ("rename" if case.get("crash_rename") else "big" if case.get("big") else "op", nl))
+        metas.append((case, res, True))
+        if rc != 0 and not survived and "Traceback" in out:
+            ctx.tie_broken("harness", "C23 crash child failed", "%s\n%s" % (json.dumps(case), out[-1500:]))
+        if spill or survived:
             pairs.append(None)
             continue
         try:
-            pairs.append((c_model(case, sizes, res["hsz"], upto=case["crash"]), c_files(files), "adm"))
+            pairs.append((c_model(case, sizes, res["hsz"], upto=case["crash"]), c_allfiles(files), "adm"))
         except ValueError as ex:
             pairs.append(None)
             ctx.tie_broken("correspondence", "C23 garbled surviving file", "%s %s" % (json.dumps(case), ex))
-        ncr += 1
 
     idx_clean = [i for i, p in enumerate(pairs) if p and p[2] == "clean"]
     idx_adm = [i for i, p in enumerate(pairs) if p and p[2] == "adm"]
     bad = []
     if idx_clean:
-        b = ctx.coq_cases(HEADER, "(fun (s : st) (f : list (option content)) => clean s f)",
-                          [(pairs[i][0], pairs[i][1]) for i in idx_clean], name="clean")
+        b = ctx.coq_cases(HEADER, "mclean", [(pairs[i][0], pairs[i][1]) for i in idx_clean], name="clean")
         bad += [idx_clean[j] for j in b]
     if idx_adm:
-        b = ctx.coq_cases(HEADER, "(fun (s : st) (f : list (option content)) => adm s f)",
-                          [(pairs[i][0], pairs[i][1]) for i in idx_adm], name="adm")
+        b = ctx.coq_cases(HEADER, "madm", [(pairs[i][0], pairs[i][1]) for i in idx_adm], name="adm")
         bad += [idx_adm[j] for j in b]
     for i in bad[:5]:
-        case, res, crashed, _ = metas[i]
+        case, res, crashed = metas[i]
         ctx.tie_broken("correspondence", "C23 model vs Logger/Log files",
                        "case=%s impl_files=%s" % (json.dumps(case), json.dumps(res["files"])))
     ctx.extra["mismatches"] = len(bad)
@@ -303,22 +395,26 @@ def run(ctx):
 
     # the implementation alone against the statement -- always evaluated (a failure here is a broken tie too)
     fails = []
-    for case, res, crashed, flushed in metas:
+    for case, res, crashed in metas:
         if crashed and res.get("survived"):
             continue
-        why = spec_check(case, res, bool(crashed), flushed)
+        why = spec_check(case, res, bool(crashed))
         if why:
             fails.append((case, res, why))
+
+    def weight(f):
+        return (len(harness.rules_of(f[0])), sum(len(p) for p in f[0]["procs"]))
     if fails:
-        case, res, why = min(fails, key=lambda f: sum(len(p) for p in f[0]["procs"]))
+        case, res, why = min(fails, key=weight)
         ctx.tie_broken("statement", "C23 property statement fails on the implementation",
                        "case=%s files=%s: %s" % (json.dumps(case), json.dumps(res["files"]), why))
 
     def search():
         if not fails:
             return None
-        case, res, why = min(fails, key=lambda f: sum(len(p) for p in f[0]["procs"]))
-        return {"case": case, "impl_files": res["files"], "why": why,
-                "contradicts": "C23.Props.retained_contiguous / crash_keeps_flushed"}
+        case, res, why = min(fails, key=weight)
+        return {"case": case, "impl_files": res["files"], "flushed_per_log": res["spy"]["flushed"], "why": why,
+                "contradicts": "C23.Props.crash_keeps_flushed_every_log / logger_flush_flushes_every_log / "
+                               "retained_contiguous"}
 
     ctx.settle(search)
